@@ -67,7 +67,7 @@ def gen_case(run_seed: int, tier: str, index: int = 0) -> dict:
         params["unsorted"] = False
     edits = ops.gen_ops(r, r.choice([10, 20, 40]), names=list(EDIT_WEIGHTS), weights=EDIT_WEIGHTS)
     route = [r.randrange(2) for _ in edits]
-    return {"property": PROPERTY, "run_seed": run_seed, "model_seed": r.randrange(1 << 30), "params": params, "clone": kind, "pass": r.choice(PASSES), "devices": r.random() < 0.3, "edits": edits, "route": route, "meta_noise": r.random() < 0.5}
+    return {"property": PROPERTY, "run_seed": run_seed, "model_seed": r.randrange(1 << 30), "params": params, "clone": kind, "pass": r.choice(PASSES), "devices": r.random() < 0.3, "edits": edits, "route": route, "meta_noise": r.random() < 0.5, "nested_types": r.choice([0, 0, 1, 2, 3])}
 
 
 def _aux_ids(w: World) -> dict:
@@ -80,7 +80,13 @@ def _aux_ids(w: World) -> dict:
 
     for i, v in enumerate(w.values):
         add("shape", v.shape, ("v", i))
-        add("type", v.type, ("v", i))
+        t = v.type
+        depth = 0
+        while t is not None and depth < 8:
+            add("type" if depth == 0 else "nested type", t, ("v", i))
+            nxt = getattr(t, "elem_type", None)
+            t = nxt if (nxt is not None and not isinstance(nxt, ir.DataType)) else None
+            depth += 1
         add("metadata_props", v.metadata_props, ("v", i))
         add("meta", v.meta, ("v", i))
     for i, n in enumerate(w.nodes):
@@ -179,6 +185,16 @@ def run_case(case: dict) -> dict:
                     inc("device_annotations")
         except Exception:  # noqa: BLE001
             pass
+    if case.get("nested_types"):
+        # sequence / optional typed values: their type objects nest other (mutable) type objects
+        pool = list(model.graph.inputs) + [o for n in model.graph.all_nodes() for o in n.outputs]
+        for f in model.functions.values():
+            pool += list(f.inputs) + [o for n in f for o in n.outputs]
+        for i, v in enumerate(pool):
+            if i % 3 == case["nested_types"] % 3:
+                inner = ir.TensorType(ir.DataType.FLOAT)
+                v.type = ir.SequenceType(inner) if i % 2 else ir.OptionalType(ir.SequenceType(inner))
+                inc("nested_typed_values")
     kind = case["clone"]
     inc("clone_" + kind)
     original_obj = model
@@ -361,7 +377,7 @@ def shrink_candidates(case: dict, violation: dict):
                 c = copy.deepcopy(case)
                 c["params"][key] = val
                 yield c
-    for flag in ("devices", "meta_noise"):
+    for flag in ("devices", "meta_noise", "nested_types"):
         if case.get(flag):
             c = copy.deepcopy(case)
             c[flag] = False
